@@ -31,8 +31,6 @@ def applicable(sc, events):
         return False, "budget < 2 (ASSUME of BadsRun)"
     if cfg["k0"] != 0:
         return False, "non-default initial mesh exponent"
-    if not cfg.get("sloppy", True):
-        return False, "non-default incumbent-update policy (the design models the default policy)"
     if (sc.get("options") or {}).get("_output_fcn"):
         return False, "user output function (not modelled in the design)"
     if (sc.get("options") or {}).get("stobads"):
@@ -67,7 +65,7 @@ def constants(sc, events):
         "SkipPollAfterSearch": b(cfg["skippoll"]), "CompletePoll": b(cfg["completepoll"]),
         "AccelMesh": b(cfg["accel"]), "AccelSteps": cfg["accelsteps"], "StallIters": cfg["stalliters"],
         "SearchLocked": b(cfg["locked"]), "GridMult": cfg["gmult"], "GridNum": cfg["gnum"],
-        "MeshExpand": cfg["expand"], "MeshIncr": cfg["incr"],
+        "MeshExpand": cfg["expand"], "MeshIncr": cfg["incr"], "Sloppy": b(cfg.get("sloppy", True)),
         "NVals": max([0] + [y for y in ys if isinstance(y, int) and y >= 0]) + 1, "Faults": "TRUE",
     }
 
